@@ -11,7 +11,7 @@ META = dict(
     level='exploration',
     exhaustive=True,
     rule=('exhaustive: every registered logic x 8 truth-functional operators x every value tuple, through '
-          'Model.truth_table(), an instance truth_function(oper, *vals) and the per-operator method; plus value set, '
+          'Model.truth_table(), an instance truth_function(oper, *vals), the per-operator method and value_of() of a finished model whose atoms carry the values; plus value set, '
           'designated set, unassigned value, definitional identities and base-logic equality of modal extensions. '
           'A case = (logic, operator, tuple); non-trivial = every cell (each is a distinct table entry).'),
     assumptions=['REF-SEM tables (vlib/ref/sem.py) are the documented/literature tables',
@@ -104,14 +104,16 @@ def run_unit(unit, out, tier, seed):
                 g1 = got_tt.get(tup)
                 g2 = str(tf_inst(oper, *[V[x] for x in tup]))
                 g3 = str(getattr(M.truth_function, oname)(*[V[x] for x in tup]))
-                g4 = str(tf_inst(oname, *[V[x] for x in tup])) if False else g2
+                # fourth path: what a finished model assigns to the operator applied to atoms with these values
+                g4 = model_value(L, oname, tup)
+                out.count('model_evaluations')
                 got = {g1, g2, g3, g4}
                 if got != {want}:
                     linear = (getattr(rsem.FDELinear(), oname)(*tup)
                               if S.base_name == 'FDE' else None)
                     out.violation(
                         'table-cell', dict(logic=name, operator=oname, inputs=list(tup), expected=want,
-                                           truth_table=g1, call=g2, method=g3),
+                                           truth_table=g1, call=g2, method=g3, value_of=g4),
                         dict(diag='table-mismatch', family=S.base_name, operator=oname,
                              nb_mix=('N' in tup and 'B' in tup),
                              matches_linear_order=(got == {linear})),
@@ -153,6 +155,19 @@ def run_unit(unit, out, tier, seed):
                     out.violation('base-table', dict(logic=name, base=base, operator=oname),
                                   dict(diag='modal-differs-from-base', logic=name, operator=oname),
                                   f'{name}.{oname} differs from base logic {base}')
+
+
+def model_value(L, oname, tup):
+    from pytableaux.lang import Atomic, Operator
+    m = L.Model()
+    atoms = [Atomic(i, 0) for i in range(len(tup))]
+    for a_, v in zip(atoms, tup):
+        m.set_atomic_value(a_, v)
+    m.finish()
+    try:
+        return str(m.value_of(Operator[oname](*atoms)))
+    except Exception as e:
+        return f'raises {type(e).__name__}'
 
 
 def replay(wit):
